@@ -65,11 +65,28 @@ def make_case(pt, doc, entry, rp):
     return Case(descr, model, oracle, impl, outcome, nontrivial, key=(pt.descr(), repr(doc)[:80]))
 
 
+# boundary inputs on which subscripting and equality matching disagree (every entry point, with and without paths)
+CORPUS = [
+    ([10, 20, 30], (-1,)), ([10, 20, 30], (3,)), ({"a": "xyz"}, ("a", 0)), ({"a": "xyz"}, ("a", -1)), ([10, 20], (1.0,)),
+    ([10, 20], (True,)), ({"a": [1]}, ("a", -1)), ({1: "x"}, (1.0,)), ({"1": "x"}, (1,)), ({1: "x", True: "y"}, (True,)),
+    ([[]], (0, 0)), ({"a": {}}, ("a", "b")), ({"a": None}, ("a", "b")), ({"a": 5}, ("a", 0)), ([{"k": [1, 2]}], (0, "k", 1)),
+    ({"": {"": 1}}, ("", "")), ({None: 1, "a": 2}, ("a",)), ([1, 2], ("0",)), ({"a": [10, 20]}, ("a", 1.5)),
+]
+
+
 def gen(seed, n, mods_p=0.0):
+    from ..pathterms import Prim
     g = Gen(seed)
     cg = CondGen(g)
     pg = PathGen(cg)
     cases = []
+    for doc, parts in CORPUS:
+        pt = PathT([Prim(x) for x in parts], [])
+        for e in ENTRIES:
+            for rp in (False, True):
+                c = make_case(pt, copy_value(doc), e, rp)
+                if c:
+                    cases.append(c)
     for _ in range(n):
         doc = g.document(4, 4)
         pt = pg.path(doc, mods_p=mods_p)
@@ -80,7 +97,7 @@ def gen(seed, n, mods_p=0.0):
         c = make_case(pt, doc, entry, rp)
         if c:
             cases.append(c)
-        if g.r.random() < 0.15:  # the other entry points on the same (path, doc)
+        if g.r.random() < (0.6 if all(not p.explicit for p in pt.parts) else 0.2):  # the other entry points on the same (path, doc)
             for e2 in ENTRIES:
                 if e2 != entry and not (e2 == "data_get_parts" and pt.mods):
                     c2 = make_case(pt, doc, e2, rp)
